@@ -46,6 +46,8 @@ pub enum Shape {
     InObj,
     /// … passed inside a list argument `v: [In!]!` of a second root field
     InObjList,
+    /// the annotated site is a variant (field with this key) of a `OneofObject`, passed as argument `v`
+    OneOf(&'static str),
 }
 
 pub struct FieldCase {
@@ -58,6 +60,10 @@ pub struct FieldCase {
     /// GraphQL type of the annotated site, from `InputType::qualified_type_name()`
     pub gql_type: String,
     pub shape: Shape,
+    /// "query" or "subscription" (the site is an argument of a `#[Subscription]` field)
+    pub op: &'static str,
+    /// derive flavour that generated the validator call
+    pub flavour: &'static str,
     pub exec: [Exec; 2],
     pub ty: TypeShape,
     pub spec: Spec,
@@ -122,10 +128,119 @@ macro_rules! io_sites {
     };
 }
 
+// The other derive flavours that call `Validators::create_validators`: `#[ComplexObject]` arguments,
+// `#[Subscription]` arguments and `OneofObject` variants (derive/src/{complex_object,subscription,oneof_object}.rs).
+#[derive(SimpleObject)]
+#[graphql(complex)]
+pub struct QC {
+    pub unused: bool,
+}
+macro_rules! cx_sites {
+    ($( ($m:ident, [$($t:tt)*], [$($val:tt)*]); )*) => {
+        #[ComplexObject(rename_fields = "lowercase")]
+        impl QC {
+            $(
+                async fn $m(&self, #[graphql(validator($($val)*))] v: $($t)*) -> bool {
+                    log_inv(format!("{:?}", v));
+                    true
+                }
+            )*
+        }
+        fn cx_cases(ex: &[Exec; 2]) -> Vec<FieldCase> {
+            vec![$(
+                FieldCase::new(stringify!($m), stringify!($m), stringify!($($t)*), stringify!($($val)*), <$($t)* as InputType>::qualified_type_name(), Shape::Arg, String::new(), ex.clone()).flavour("ComplexObject"),
+            )*]
+        }
+    };
+}
+pub struct QD;
+#[Object]
+impl QD {
+    async fn unused(&self) -> bool {
+        true
+    }
+}
+pub struct SubRoot;
+macro_rules! sub_sites {
+    ($( ($m:ident, [$($t:tt)*], [$($val:tt)*]); )*) => {
+        #[Subscription(rename_fields = "lowercase")]
+        impl SubRoot {
+            $(
+                async fn $m(&self, #[graphql(validator($($val)*))] v: $($t)*) -> impl futures_util::Stream<Item = bool> {
+                    log_inv(format!("{:?}", v));
+                    futures_util::stream::iter(vec![true])
+                }
+            )*
+        }
+        fn sub_cases(ex: &[Exec; 2]) -> Vec<FieldCase> {
+            vec![$(
+                FieldCase::new(stringify!($m), stringify!($m), stringify!($($t)*), stringify!($($val)*), <$($t)* as InputType>::qualified_type_name(), Shape::Arg, String::new(), ex.clone()).flavour("Subscription").subscription(),
+            )*]
+        }
+    };
+}
+macro_rules! oneof_sites {
+    ($( ($variant:ident, $key:literal, $name:literal, [$($t:tt)*], [$($val:tt)*]); )*) => {
+        #[derive(OneofObject)]
+        pub enum One {
+            $(
+                #[graphql(validator($($val)*))]
+                $variant($($t)*),
+            )*
+        }
+        pub struct QO;
+        #[Object(rename_fields = "lowercase")]
+        impl QO {
+            async fn one(&self, v: One) -> bool {
+                log_inv(match &v { $( One::$variant(x) => format!("{:?}", x), )* });
+                true
+            }
+        }
+        fn oneof_cases(ex: &[Exec; 2]) -> Vec<FieldCase> {
+            let tn = <One as InputType>::type_name().to_string();
+            vec![$(
+                FieldCase::new($name, "one", stringify!($($t)*), stringify!($($val)*), <$($t)* as InputType>::qualified_type_name(), Shape::OneOf($key), tn.clone(), ex.clone()).flavour("OneofObject"),
+            )*]
+        }
+    };
+}
+
+fn execs_sub() -> [Exec; 2] {
+    use futures_util::StreamExt;
+    [ValidationMode::Strict, ValidationMode::Fast].map(|m| {
+        let s = Schema::build(QD, EmptyMutation, SubRoot).validation_mode(m).finish();
+        Arc::new(move |r: Request| {
+            let mut st = s.execute_stream(r);
+            drive(st.next()).flatten()
+        }) as Exec
+    })
+}
+
 pub fn all_cases() -> Vec<FieldCase> {
     let mut v = arg_cases(&execs(|| QA));
     v.extend(io_cases(&execs(|| QI)));
+    v.extend(cx_cases(&execs(|| QC { unused: true })));
+    v.extend(sub_cases(&execs_sub()));
+    v.extend(oneof_cases(&execs(|| QO)));
     v
+}
+
+cx_sites! {
+    (cx_u64_max, [u64], [maximum = 10]);
+    (cx_i32_mul, [i32], [multiple_of = 3]);
+    (cx_l_list, [Vec<String>], [list, max_length = 3, max_items = 2]);
+}
+
+sub_sites! {
+    (sub_u64_max, [u64], [maximum = 10]);
+    (sub_f64_min, [f64], [minimum = 0.5]);
+    (sub_s_cminlen, [String], [chars_min_length = 2]);
+}
+
+oneof_sites! {
+    (A, "a", "oneof_s_maxlen", [String], [max_length = 3]);
+    (B, "b", "oneof_u64_max", [u64], [maximum = 10]);
+    (C, "c", "oneof_l_list", [Vec<i32>], [list, minimum = 1, max_items = 2]);
 }
 
 arg_sites! {
@@ -461,7 +576,18 @@ impl FieldCase {
         let rust_type: String = rust_type.chars().filter(|c| !c.is_whitespace()).collect();
         let ty = parse_type(&rust_type).unwrap_or_else(|e| panic!("{name}: {e}"));
         let spec = parse_spec(validators).unwrap_or_else(|e| panic!("{name}: {e}"));
-        FieldCase { name: name.to_string(), field, in_type, rust_type, validators: validators.to_string(), gql_type, shape, exec, ty, spec }
+        FieldCase { name: name.to_string(), field, in_type, op: "query", flavour: if shape == Shape::Arg { "Object" } else { "InputObject" }, rust_type, validators: validators.to_string(), gql_type, shape, exec, ty, spec }
+    }
+}
+
+impl FieldCase {
+    fn flavour(mut self, f: &'static str) -> Self {
+        self.flavour = f;
+        self
+    }
+    fn subscription(mut self) -> Self {
+        self.op = "subscription";
+        self
     }
 }
 
@@ -760,26 +886,37 @@ fn indexmap_new() -> async_graphql::indexmap::IndexMap<Name, ConstValue> {
 
 pub fn build_request(f: &FieldCase, sup: &Supplied, form: usize) -> Option<(String, serde_json::Value)> {
     let field = f.field;
+    let op = f.op;
+    let keyed = |key: &str, v: Option<ConstValue>| {
+        let mut m = indexmap_new();
+        if let Some(v) = v {
+            m.insert(Name::new(key), v);
+        }
+        ConstValue::Object(m)
+    };
     let (arg_value, arg_type): (Option<ConstValue>, String) = match f.shape {
         Shape::Arg => (sup.value.clone(), f.gql_type.clone()),
         Shape::InObj => (Some(obj(sup.value.clone())), format!("{}!", f.in_type)),
         Shape::InObjList => (Some(ConstValue::List(vec![obj(sup.value.clone())])), format!("[{}!]!", f.in_type)),
+        Shape::OneOf(key) => (Some(keyed(key, sup.value.clone())), format!("{}!", f.in_type)),
     };
     match form {
         0 => Some(match &arg_value {
-            Some(v) => (format!("{{ {field}(v: {v}) }}"), json!({})),
-            None => (format!("{{ {field} }}"), json!({})),
+            Some(v) => (format!("{op} {{ {field}(v: {v}) }}"), json!({})),
+            None => (format!("{op} {{ {field} }}"), json!({})),
         }),
         1 => Some(match &arg_value {
-            Some(v) => (format!("query($x: {arg_type}) {{ {field}(v: $x) }}"), json!({"x": v.clone().into_json().ok()?})),
-            None => (format!("query($x: {arg_type}) {{ {field}(v: $x) }}"), json!({})),
+            Some(v) => (format!("{op}($x: {arg_type}) {{ {field}(v: $x) }}"), json!({"x": v.clone().into_json().ok()?})),
+            None => (format!("{op}($x: {arg_type}) {{ {field}(v: $x) }}"), json!({})),
         }),
         2 => {
-            if f.shape == Shape::Arg {
-                return None;
-            }
-            let inner = if f.shape == Shape::InObj { "{v: $x}" } else { "[{v: $x}]" };
-            let q = format!("query($x: {}) {{ {field}(v: {inner}) }}", f.gql_type);
+            let inner = match f.shape {
+                Shape::Arg => return None,
+                Shape::InObj => "{v: $x}".to_string(),
+                Shape::InObjList => "[{v: $x}]".to_string(),
+                Shape::OneOf(key) => format!("{{{key}: $x}}"),
+            };
+            let q = format!("{op}($x: {}) {{ {field}(v: {inner}) }}", f.gql_type);
             Some(match &sup.value {
                 Some(v) => (q, json!({"x": v.clone().into_json().ok()?})),
                 None => (q, json!({})),
@@ -981,9 +1118,14 @@ pub fn run(cx: &Cx, table: &Table, cnt: &ExecCounts) {
         let names = f.spec.preds.iter().map(|p| p.name()).collect::<Vec<_>>().join("+");
         let names = if f.spec.list { format!("list,{names}") } else { names };
         let place = match f.shape {
-            Shape::Arg => "",
+            Shape::Arg => match f.flavour {
+                "ComplexObject" => " (ComplexObject argument)",
+                "Subscription" => " (Subscription argument)",
+                _ => "",
+            },
             Shape::InObj => " in input object",
             Shape::InObjList => " in list of input objects",
+            Shape::OneOf(_) => " in oneof object",
         };
         table.add(&format!("execute: {names}"), &format!("{}{place}", f.rust_type), by_site[i].0, by_site[i].1);
         cx.evals(by_site[i].0);
